@@ -3,6 +3,8 @@ package exec
 import (
 	"context"
 	"fmt"
+	"math"
+	"time"
 
 	"github.com/theory/sqljson/path/ast"
 	"github.com/theory/sqljson/path/types"
@@ -218,7 +220,11 @@ func (exec *Executor) executeDateTimeMethod(
 	case ast.UnaryTimestamp:
 		timeVal, err = exec.castTimestamp(ctx, timeVal, datetime)
 	case ast.UnaryTimestampTZ:
-		timeVal, err = exec.castTimestampTZ(ctx, timeVal, datetime)
+		if _, ok := timeVal.(*types.Timestamp); ok && arg != nil {
+			timeVal, err = exec.castTimestampTZPrecision(ctx, datetime, arg)
+		} else {
+			timeVal, err = exec.castTimestampTZ(ctx, timeVal, datetime)
+		}
 	case ast.UnaryExists, ast.UnaryNot, ast.UnaryIsUnknown, ast.UnaryPlus, ast.UnaryMinus, ast.UnaryFilter:
 		return statusFailed, fmt.Errorf("%w: unrecognized jsonpath datetime method: %v", ErrInvalid, op)
 	}
@@ -267,28 +273,9 @@ func (exec *Executor) parseDateTime(
 	datetime string,
 	arg ast.Node,
 ) (types.DateTime, error) {
-	// Check for optional precision for methods other than .datetime() and
-	// .date()
-	precision := -1
-	if op != ast.UnaryDateTime && op != ast.UnaryDate && arg != nil {
-		var err error
-		precision, err = getNodeInt32(arg, op.String()+"()", "time precision")
-		if err != nil {
-			return nil, err
-		}
-
-		if precision < 0 {
-			return nil, fmt.Errorf(
-				"%w: time precision of jsonpath item method %v() is invalid",
-				ErrVerbose, op,
-			)
-		}
-
-		const maxTimestampPrecision = 6
-		if precision > maxTimestampPrecision {
-			// pg: issues a warning
-			precision = maxTimestampPrecision
-		}
+	precision, err := timePrecision(op, arg)
+	if err != nil {
+		return nil, err
 	}
 
 	// Parse the value.
@@ -301,6 +288,36 @@ func (exec *Executor) parseDateTime(
 	}
 
 	return timeVal, nil
+}
+
+// timePrecision returns the precision in arg, capped at six digits, or -1 if
+// arg is nil or op takes no precision.
+func timePrecision(op ast.UnaryOperator, arg ast.Node) (int, error) {
+	// Check for optional precision for methods other than .datetime() and
+	// .date()
+	precision := -1
+	if op != ast.UnaryDateTime && op != ast.UnaryDate && arg != nil {
+		var err error
+		precision, err = getNodeInt32(arg, op.String()+"()", "time precision")
+		if err != nil {
+			return 0, err
+		}
+
+		if precision < 0 {
+			return 0, fmt.Errorf(
+				"%w: time precision of jsonpath item method %v() is invalid",
+				ErrVerbose, op,
+			)
+		}
+
+		const maxTimestampPrecision = 6
+		if precision > maxTimestampPrecision {
+			// pg: issues a warning
+			precision = maxTimestampPrecision
+		}
+	}
+
+	return precision, nil
 }
 
 // notRecognized creates an error when the format of datetime is not able to
@@ -405,6 +422,37 @@ func (exec *Executor) castTimestamp(
 	default:
 		return nil, fmt.Errorf("%w: type %T not supported", ErrInvalid, tv)
 	}
+}
+
+// castTimestampTZPrecision casts the timestamp without time zone in datetime
+// to [types.TimestampTZ] and then rounds it to the precision in arg, as
+// PostgreSQL does. Rounding the wall-clock time before the cast can carry it
+// over a change of the zone's offset, where it is read with the other offset
+// or does not exist at all: "2023-11-05 01:59:59.7".timestamp_tz(0) in
+// America/New_York became 02:00:00-05:00, an hour after 01:59:59.7-04:00.
+func (exec *Executor) castTimestampTZPrecision(
+	ctx context.Context,
+	datetime string,
+	arg ast.Node,
+) (types.DateTime, error) {
+	precision, err := timePrecision(ast.UnaryTimestampTZ, arg)
+	if err != nil {
+		return nil, err
+	}
+
+	unrounded, err := exec.parseDateTime(ctx, ast.UnaryTimestampTZ, datetime, nil)
+	if err != nil {
+		return nil, err
+	}
+
+	tstz, err := exec.castTimestampTZ(ctx, unrounded, datetime)
+	if err != nil {
+		return nil, err
+	}
+
+	// The offset is the one in force at the rounded instant.
+	unit := time.Second / time.Duration(math.Pow10(precision))
+	return types.NewTimestampTZ(ctx, tstz.Round(unit).In(types.TZFromContext(ctx))), nil
 }
 
 // castTimestampTZ casts timeVal to [types.TimestampTZ]. The datetime param is
